@@ -1,4 +1,5 @@
 import Sourmash.Lemmas.SimilarityNum
+import Sourmash.Lemmas.SimilarityAng
 /-!
 Property C05 — similarity, containment and angular similarity are exact on retained hashes.
 Property theorems only; helper lemmas live in `Sourmash/Lemmas/Similarity*.lean`.
@@ -158,5 +159,236 @@ theorem intersectionSize_container (a b : Sketch) :
 theorem jaccardCore_container (a b : Sketch) : jaccardCore .vec a b = jaccardCore .tree a b := by
   unfold jaccardCore
   rw [intersectionSize_container]
+
+/-! ### T-angular_triple -/
+
+/-- T-angular_triple: on two compatible sketches that both track abundances (abundance lists as
+    long as the hash lists) `angular_similarity` feeds its float expression with
+    `(Σ_{h ∈ A∩B} a_h·b_h, Σ a², Σ b²)` — for every overlap shape, in both containers.  For the vector
+    container this includes that the two `get_unchecked` accesses of the walk are always in range
+    (the model's `[i]?` never yields `none`, i.e. the result is not `UncheckedIndexOutOfRange`). -/
+theorem angular_triple (c : Container) (a b : Sketch) (aab bab : List Nat)
+    (hc : checkCompatible a b = .ok ())
+    (haa : a.abunds = some aab) (hbb : b.abunds = some bab)
+    (ha : Sorted a.mins) (hb : Sorted b.mins)
+    (hla : aab.length = a.mins.length) (hlb : bab.length = b.mins.length) :
+    angularCore c a b = .ok (.angular (dot a.mins aab b.mins bab)
+                                      (SimilaritySpec.sumSq aab) (SimilaritySpec.sumSq bab)) := by
+  have hlook : dotLookup (a.mins.zip aab) (b.mins.zip bab) = dot a.mins aab b.mins bab :=
+    dotLookup_eq_dot a.mins aab b.mins bab ha hlb hla
+  unfold angularCore
+  rw [hc]
+  simp only [haa, hbb, sumSq_eq_spec]
+  cases c with
+  | vec =>
+    have hw := angWalk_eq aab bab 0 a.mins 0 b.mins 0 ha (by simpa using hla) (by simpa using hlb)
+    simp only [List.drop_zero, Nat.zero_add] at hw
+    rw [dotMerge_eq_dotLookup _ _ (sortedK_zip _ _ ha) (sortedK_zip _ _ hb), hlook] at hw
+    simp only [hw]; rfl
+  | tree => simp only [hlook]; rfl
+
+example : angularCore .vec exA exB = .ok (.angular 9 30 46) := by
+  rw [angular_triple .vec exA exB [2, 3, 4, 1] [1, 1, 6, 2, 2] rfl rfl rfl (by decide) (by decide) rfl rfl]
+  rfl
+
+/-- the walk itself: in range at every step, whatever the overlap shape (statement about the loop
+    started anywhere in the two sketches) -/
+theorem angular_walk_in_range (aab bab : List Nat) (i j prod : Nat) (hs ks : List Nat)
+    (hs' : Sorted hs) (ha : (aab.drop i).length = hs.length) (hb : (bab.drop j).length = ks.length) :
+    ∃ r, angWalk aab bab i hs j ks prod = some r := ⟨_, angWalk_eq aab bab i hs j ks prod hs' ha hb⟩
+
+example : ∃ r, angWalk [2, 3, 4, 1] [1, 1, 6, 2, 2] 0 [1, 5, 9, 12] 0 [5, 7, 12, 40, 41] 0 = some r :=
+  angular_walk_in_range _ _ 0 0 0 _ _ (by decide) rfl rfl
+
+/-- both containers compute the same triple -/
+theorem angular_container (a b : Sketch) (aab bab : List Nat)
+    (hc : checkCompatible a b = .ok ())
+    (haa : a.abunds = some aab) (hbb : b.abunds = some bab)
+    (ha : Sorted a.mins) (hb : Sorted b.mins)
+    (hla : aab.length = a.mins.length) (hlb : bab.length = b.mins.length) :
+    angularCore .vec a b = angularCore .tree a b := by
+  rw [angular_triple .vec a b aab bab hc haa hbb ha hb hla hlb,
+      angular_triple .tree a b aab bab hc haa hbb ha hb hla hlb]
+
+example : angularCore .vec exA exB = angularCore .tree exA exB :=
+  angular_container exA exB _ _ rfl rfl rfl (by decide) (by decide) rfl rfl
+
+/-- T-sym (angular): swapping the operands swaps the two squared norms and keeps the product -/
+theorem angular_symm (c : Container) (a b : Sketch) (aab bab : List Nat)
+    (hc : checkCompatible a b = .ok ())
+    (haa : a.abunds = some aab) (hbb : b.abunds = some bab)
+    (ha : Sorted a.mins) (hb : Sorted b.mins)
+    (hla : aab.length = a.mins.length) (hlb : bab.length = b.mins.length) :
+    ∃ p, angularCore c a b = .ok (.angular p (SimilaritySpec.sumSq aab) (SimilaritySpec.sumSq bab)) ∧
+         angularCore c b a = .ok (.angular p (SimilaritySpec.sumSq bab) (SimilaritySpec.sumSq aab)) := by
+  have hc' : checkCompatible b a = .ok () := by rw [← checkCompatible_comm]; exact hc
+  refine ⟨dot a.mins aab b.mins bab, angular_triple c a b aab bab hc haa hbb ha hb hla hlb, ?_⟩
+  rw [angular_triple c b a bab aab hc' hbb haa hb ha hlb hla]
+  have : dot b.mins bab a.mins aab = dot a.mins aab b.mins bab := by
+    rw [← dotLookup_eq_dot _ _ _ _ hb hla hlb, ← dotLookup_eq_dot _ _ _ _ ha hlb hla,
+        ← dotMerge_eq_dotLookup _ _ (sortedK_zip _ _ hb) (sortedK_zip _ _ ha),
+        ← dotMerge_eq_dotLookup _ _ (sortedK_zip _ _ ha) (sortedK_zip _ _ hb), dotMerge_comm]
+  rw [this]
+
+example : ∃ p, angularCore .tree exA exB = .ok (.angular p 30 46) ∧
+               angularCore .tree exB exA = .ok (.angular p 46 30) :=
+  angular_symm .tree exA exB _ _ rfl rfl rfl (by decide) (by decide) rfl rfl
+
+/-! ### T-refuse -/
+
+/-- T-refuse (order of the checks): an incompatibility is reported first, with its own error -/
+theorem angular_incompatible (c : Container) (a b : Sketch) (e : Err)
+    (hc : checkCompatible a b = .error e) : angularCore c a b = .error e := by
+  unfold angularCore; rw [hc]; rfl
+
+example : angularCore .vec exA { exB with ksize := 31, abunds := none } = .error .MismatchKSizes :=
+  angular_incompatible _ _ _ _ rfl
+
+/-- T-refuse: `angular_similarity` is refused with `NeedsAbundanceTracking` exactly when the sketches
+    are compatible and at least one of them tracks no abundances (no hypothesis on the lists) -/
+theorem angular_refused_iff (c : Container) (a b : Sketch) :
+    angularCore c a b = .error .NeedsAbundanceTracking ↔
+      checkCompatible a b = .ok () ∧ (a.tracked = false ∨ b.tracked = false) := by
+  unfold angularCore Sketch.tracked
+  cases hcb : checkCompatible a b with
+  | error e =>
+    have : e ≠ .NeedsAbundanceTracking := by
+      unfold checkCompatible at hcb
+      intro he; subst he
+      split at hcb <;> try split at hcb <;> try split at hcb <;> try split at hcb
+      all_goals simp at hcb
+    constructor
+    · intro h; exact absurd (Except.error.inj h) this
+    · rintro ⟨h, _⟩; cases h
+  | ok u =>
+    cases haa : a.abunds with
+    | none => simp [bind, Except.bind]
+    | some aab =>
+      cases hbb : b.abunds with
+      | none => simp [bind, Except.bind]
+      | some bab =>
+        cases c with
+        | vec =>
+          simp only [bind, Except.bind]
+          cases angWalk aab bab 0 a.mins 0 b.mins 0 <;> simp
+        | tree => simp [bind, Except.bind]
+
+example : angularCore .tree exA { exB with abunds := none } = .error .NeedsAbundanceTracking :=
+  (angular_refused_iff _ _ _).mpr ⟨rfl, Or.inr rfl⟩
+
+/-- T-refuse, converse on well-formed sketches: with both sides tracked (and aligned) the call
+    succeeds -/
+theorem angular_ok_of_tracked (c : Container) (a b : Sketch) (aab bab : List Nat)
+    (hc : checkCompatible a b = .ok ())
+    (haa : a.abunds = some aab) (hbb : b.abunds = some bab)
+    (ha : Sorted a.mins) (hb : Sorted b.mins)
+    (hla : aab.length = a.mins.length) (hlb : bab.length = b.mins.length) :
+    ∃ r, angularCore c a b = .ok r := ⟨_, angular_triple c a b aab bab hc haa hbb ha hb hla hlb⟩
+
+example : ∃ r, angularCore .vec exA exB = .ok r :=
+  angular_ok_of_tracked .vec exA exB _ _ rfl rfl rfl (by decide) (by decide) rfl rfl
+
+/-! ### T-dispatch -/
+
+/-- which definition an answer of `jaccard` / `angular_similarity` belongs to -/
+theorem jaccardCore_kind (c : Container) (a b : Sketch) (r : SimCore)
+    (h : jaccardCore c a b = .ok r) : (∃ p q, r = .jaccard p q) ∨ r = .zero := by
+  unfold jaccardCore at h
+  cases hcb : checkCompatible a b with
+  | error e => rw [hcb] at h; cases h
+  | ok u =>
+    rw [hcb] at h
+    simp only [bind, Except.bind] at h
+    cases his : intersectionSize c a b with
+    | error e => rw [his] at h; right; exact (Except.ok.inj h).symm
+    | ok pq => rw [his] at h; left; exact ⟨pq.1, pq.2, (Except.ok.inj h).symm⟩
+
+theorem angularCore_kind (c : Container) (a b : Sketch) (r : SimCore)
+    (h : angularCore c a b = .ok r) : ∃ p x y, r = .angular p x y := by
+  unfold angularCore at h
+  cases hcb : checkCompatible a b with
+  | error e => rw [hcb] at h; cases h
+  | ok u =>
+    rw [hcb] at h
+    simp only [bind, Except.bind] at h
+    cases haa : a.abunds with
+    | none => rw [haa] at h; cases h
+    | some aab =>
+      cases hbb : b.abunds with
+      | none => rw [haa, hbb] at h; cases h
+      | some bab =>
+        rw [haa, hbb] at h
+        cases c with
+        | vec =>
+          simp only at h
+          cases hw : angWalk aab bab 0 a.mins 0 b.mins 0 with
+          | none => rw [hw] at h; cases h
+          | some p => rw [hw] at h; exact ⟨p, _, _, (Except.ok.inj h).symm⟩
+        | tree => exact ⟨_, _, _, (Except.ok.inj h).symm⟩
+
+/-- T-dispatch (what is called): the dispatcher hands over to `jaccard` resp. `angular_similarity` -/
+theorem similarity_calls (c : Container) (a b : Sketch) (ign : Bool) :
+    similarityCore c a b ign false =
+      if ign = true ∨ a.tracked = false ∨ b.tracked = false then jaccardCore c a b
+      else angularCore c a b := by
+  unfold similarityCore similarityFlat
+  simp
+
+/-- T-dispatch: an answer of `similarity(other, ignore_abundance, false)` is a Jaccard value iff
+    `ignore_abundance ∨ ¬tracked a ∨ ¬tracked b`, and an angular value otherwise -/
+theorem similarity_dispatch (c : Container) (a b : Sketch) (ign : Bool) (r : SimCore)
+    (h : similarityCore c a b ign false = .ok r) :
+    ((∃ p q, r = .jaccard p q) ∨ r = .zero) ↔ (ign = true ∨ a.tracked = false ∨ b.tracked = false) := by
+  unfold similarityCore similarityFlat at h
+  simp only [Bool.false_eq_true, false_and, if_false] at h
+  by_cases hd : ign = true ∨ (!a.tracked) = true ∨ (!b.tracked) = true
+  · rw [if_pos hd] at h
+    constructor
+    · intro _; simpa using hd
+    · intro _; exact jaccardCore_kind c a b r h
+  · rw [if_neg hd] at h
+    obtain ⟨p, x, y, rfl⟩ := angularCore_kind c a b r h
+    constructor
+    · rintro (⟨p', q', h'⟩ | h') <;> cases h'
+    · intro h'; exact absurd (by simpa using h') hd
+
+example : similarityCore .vec exA exB true false = .ok (.jaccard 2 7) := by
+  rw [similarity_calls, if_pos (Or.inl rfl),
+      jaccard_core_scaled .vec exA exB rfl rfl (by decide) (by decide)]; rfl
+example : similarityCore .vec exA exB false false = .ok (.angular 9 30 46) := by
+  rw [similarity_calls, if_neg (by decide),
+      angular_triple .vec exA exB [2, 3, 4, 1] [1, 1, 6, 2, 2] rfl rfl rfl (by decide) (by decide) rfl rfl]
+  rfl
+
+/-- T-dispatch (downsample flag): with equal `scaled()` the flag changes nothing … -/
+theorem similarity_downsample_same (c : Container) (a b : Sketch) (ign : Bool)
+    (hs : a.scaled = b.scaled) :
+    similarityCore c a b ign true = similarityCore c a b ign false := by
+  unfold similarityCore
+  simp [hs]
+
+/-- … and with different `scaled()` the sketch with the smaller `scaled()` is downsampled to the
+    larger one and the comparison is made from the coarser sketch — in either operand order. -/
+theorem similarity_downsample_diff (c : Container) (a b : Sketch) (ign : Bool)
+    (hs : a.scaled > b.scaled) :
+    similarityCore c a b ign true
+      = (downsampleScaled b a.scaled >>= fun d => similarityFlat c a d ign) ∧
+    similarityCore c b a ign true
+      = (downsampleScaled b a.scaled >>= fun d => similarityFlat c a d ign) := by
+  have h1 : a.scaled ≠ b.scaled := by omega
+  have h2 : b.scaled ≠ a.scaled := by omega
+  have h3 : ¬ b.scaled > a.scaled := by omega
+  unfold similarityCore
+  simp [h1, h2, h3, hs]
+
+example : similarityCore .vec exA exB false true = similarityCore .vec exA exB false false :=
+  similarity_downsample_same .vec exA exB false rfl
+
+/-- T-sym (dispatcher): `similarity(.., ignore_abundance = true, false)` — what the `Comparable`
+    impls call — is symmetric for sketches with the same `num` -/
+theorem similarity_ignore_symm (c : Container) (a b : Sketch) (hnum : a.num = b.num) :
+    similarityCore c a b true false = similarityCore c b a true false := by
+  rw [similarity_calls, similarity_calls]
+  simp [jaccardCore_symm c a b hnum]
 
 end Sourmash.C05
